@@ -347,6 +347,11 @@ func runCorrupt(o *opts) {
 		t.Info["victim_len"] = len(victim.Data)
 		distinct[victim.Digest+how] = true
 		ts := []*Transition{t}
+		// a retry must not "succeed" on the bytes the failed attempt left behind
+		t2, _ := p.do(Cmd{Kind: "checkout", Copy: true}, nil, want(5, 13), nil, nil)
+		t2.Info["step"] = "checkout --copy again after the failed attempt"
+		t2.Info["damage"] = how
+		ts = append(ts, t2)
 		tag(ts, "corrupt", i, map[string]interface{}{"kind": c.kind})
 		all = append(all, ts...)
 		c.cleanup()
